@@ -157,7 +157,11 @@ class Check:
             'wall_s': round(time.time() - self.t0, 2),
             'violations': self.nviol,
         }
-        check_evidence(ev)
+        bad = None
+        try:
+            check_evidence(ev)
+        except Exception as e:  # evidence must still be written; an incomplete one is an infrastructure error
+            bad = e
         os.makedirs(os.path.join(VERIF, 'evidence'), exist_ok=True)
         p = os.path.join(VERIF, 'evidence', self.pid + '.json')
         with open(p + '.tmp', 'w') as f:
@@ -171,6 +175,9 @@ class Check:
             pass
         self.log('done: violations=%d known=%d wall=%.1fs exhaustive=%s' % (
             self.nviol, sum(self.known_hit.values()), ev['wall_s'], cov['exhaustive']))
+        if bad is not None:
+            print('evidence incomplete:', repr(bad))
+            return 1 if self.nviol else 2
         return 1 if self.nviol else 0
 
 
